@@ -102,6 +102,15 @@ def gen_cases(tier, seed):
                 for pth in INSTPATHS:
                     yield dict(kind="instlabels", I=I, C=C, T=T, labels=lk, path=pth,
                                fam=(k + seed) % NFAM)
+    # more than ten variables with integer identifiers (10 sorts before 2 as text), and integer
+    # panels beyond 2**53 (not representable in float64)
+    for C in (11, 12):
+        for I in (1, 2):
+            yield dict(kind="manyvars", I=I, C=C, T=2, fam=(k + seed) % NFAM)
+            k += 1
+    for C in (1, 2):
+        for cellk in ("S", "A"):
+            yield dict(kind="bigint", I=2, C=C, T=3, cell=cellk)
     # multi-index panels that are SELECTIONS of a bigger panel (pandas keeps the unused level
     # entries of the parent): every non-empty subset of 3 instances x 3 time selections
     for C in (1, 2):
@@ -830,6 +839,10 @@ def run_case(case):
         return _run_instlabels(case, res)
     if kind == "misubset":
         return _run_misubset(case, res)
+    if kind == "manyvars":
+        return _run_manyvars(case, res)
+    if kind == "bigint":
+        return _run_bigint(case, res)
     raise ValueError(kind)
 
 
@@ -838,6 +851,86 @@ INSTLABELS = {"desc": lambda I: [9 - 2 * i for i in range(I)],
               "shuffled": lambda I: [(i * 2 + 1) % I if I % 2 else (I - 1 - i) for i in range(I)]}
 INSTPATHS = [["n>mi", "mi>n"], ["n>mi", "mi>3d"], ["n>3d"], ["n>mi", "mi>n", "n>mi", "mi>3d"],
              ["n>mi", "mi>nA"], ["n>long"]]
+
+
+def _run_manyvars(case, res):
+    """variables identified by the integers 0..C-1, C > 10: nested -> long -> nested and a
+    shuffled hand-made long table keep the variables in the order of their identifiers"""
+    import sktime.utils.data_processing as dp
+
+    I, C, T = case["I"], case["C"], case["T"]
+    X = np.array([[[_value(i, c, t, case["fam"]) for t in range(T)] for c in range(C)]
+                  for i in range(I)], dtype=float)
+
+    def via_nested():
+        nested = dp.from_3d_numpy_to_nested(X, column_names=list(range(C)))
+        long = dp.from_nested_to_long(nested, instance_column_name="case_id",
+                                      time_column_name="reading_id",
+                                      dimension_column_name="dim_id")
+        return dp.from_nested_to_3d_numpy(dp.from_long_to_nested(long))
+
+    def via_table():
+        rows = [(i, j, t, X[i, j, t]) for t in range(T) for j in reversed(range(C))
+                for i in range(I)]
+        table = pd.DataFrame(rows, columns=["case_id", "dim_id", "reading_id", "value"])
+        return dp.from_nested_to_3d_numpy(dp.from_long_to_nested(table))
+
+    for nm, fn in (("n>long>n", via_nested), ("table>n", via_table)):
+        o = call(fn)
+        res.transitions += 1
+        res.evals += 1
+        if not o.ok:
+            res.violate("manyvars:%s:raises" % nm, "conversion raised", observed=o.brief())
+            return res
+        got = np.asarray(o.value, dtype=float)
+        if got.shape != X.shape or not np.array_equal(got, X):
+            res.violate("manyvars:%s:order" % nm, "with more than ten integer-identified "
+                        "variables the long-table route does not return the variables in the "
+                        "order of their identifiers", expected=X[0, :, 0].tolist(),
+                        observed=got[0, :, 0].tolist() if got.ndim == 3 else list(got.shape))
+            return res
+    res.nt(("manyvars", I, C, T))
+    res.outcome("manyvars:ok")
+    return res
+
+
+def _run_bigint(case, res):
+    """integer panels whose values exceed 2**53: 3d -> nested -> 3d and check_X must return the
+    original integers exactly"""
+    import sktime.utils.data_processing as dp
+    from sktime.utils.validation.panel import check_X
+
+    I, C, T = case["I"], case["C"], case["T"]
+    base = 2 ** 60
+    vals = [[[base + 100 * i + 10 * c + t + 1 for t in range(T)] for c in range(C)]
+            for i in range(I)]
+    X = np.array(vals, dtype=np.int64)
+
+    def nested():
+        if case["cell"] == "S":
+            return dp.from_3d_numpy_to_nested(X)
+        return pd.DataFrame({"var_%d" % c: _obj_col([X[i, c].copy() for i in range(I)])
+                             for c in range(C)})
+
+    for nm, fn in (("n>3d", lambda: dp.from_nested_to_3d_numpy(nested())),
+                   ("check_X", lambda: check_X(nested(), coerce_to_numpy=True))):
+        o = call(fn)
+        res.transitions += 1
+        res.evals += 1
+        if not o.ok:
+            res.violate("bigint:%s:raises" % nm, "conversion raised", observed=o.brief())
+            return res
+        got = [[[int(v) for v in col] for col in inst] for inst in np.asarray(o.value).tolist()] \
+            if np.asarray(o.value).dtype.kind in "iu" else \
+            [[[int(v) for v in col] for col in inst] for inst in np.asarray(o.value)]
+        if got != vals:
+            res.violate("bigint:%s:values" % nm, "integer values beyond 2**53 are not returned "
+                        "exactly (they went through a float64 buffer)",
+                        expected=vals[0][0], observed=got[0][0])
+            return res
+    res.nt(("bigint", I, C, T, case["cell"]))
+    res.outcome("bigint:ok")
+    return res
 
 
 def _run_misubset(case, res):
